@@ -114,7 +114,11 @@ def k_get_command_instance(ip, args, kwargs):
     G = core.cur().ghost
     G["calls"].append(("lookup", args[0], args[1] if len(args) > 1 else None))
     if core.branch(sym.fresh_bool("name_is_unknown").t):
+        G["lookup_raised"] = "UnknownCommand"
         raise commands.UnknownCommand(args[0])
+    if core.branch(sym.fresh_bool("extension_of_the_name_is_not_loaded").t):
+        G["lookup_raised"] = "ExtensionNotLoaded"
+        raise commands.ExtensionNotLoaded("extension-of-the-name")
     return ip.call(StubCommand, ["looked_up"], {})
 
 
@@ -315,13 +319,18 @@ def h_arguments(ttype):
         kind = "ParseError"
     except commands.UnknownCommand:
         kind = "UnknownCommand"
+    except commands.ExtensionNotLoaded:
+        kind = "ExtensionNotLoaded"
     calls = ghost()["calls"]
     if kind == "UnicodeDecodeError":
         prove(ttype in ("string", "multiline", "number", "tag", "identifier"), "P4.decode-error-only-for-text-tokens")
         return
+    if ghost().get("lookup_raised") is not None:
+        # C07 (message clause): what the lookup gate raises reaches parse()'s funnel unchanged, so the error names the extension
+        prove(kind == ghost()["lookup_raised"], "P4.lookup-error-reaches-the-funnel-unchanged")
     if ttype == "identifier":
         prove(len(calls) >= 1 and calls[0] == ("lookup", tvalue.decode("ascii"), cur), "P4.test-name-is-looked-up-under-the-current-command")
-        if kind == "UnknownCommand":
+        if kind == "UnknownCommand" or kind == "ExtensionNotLoaded":
             prove(len(calls) == 1 and frame(p, cur, nbrackets=1), "P4.unknown-name-changes-nothing")
             return
         new = p._Parser__curcommand
@@ -342,7 +351,7 @@ def h_arguments(ttype):
             prove(r is False and len(calls) == 2 and p._Parser__curcommand is cur and p._Parser__expected == ("previous-expected",),
                   "P4.refused-test-is-an-error-nothing-entered")
         return
-    prove(kind != "UnknownCommand", "P4.lookup-only-for-identifiers")
+    prove(kind != "UnknownCommand" and kind != "ExtensionNotLoaded", "P4.lookup-only-for-identifiers")
     if ttype == "left_parenthesis":
         prove(kind == "return" and r is True and len(calls) == 0 and len(p._Parser__expected_brackets) == 2
               and p._Parser__expected_brackets[1][0] == "right_parenthesis" and p._Parser__expected == ("identifier",)
@@ -508,11 +517,15 @@ def h_command(ttype, in_arguments, nested):
         kind = "ParseError"
     except commands.UnknownCommand:
         kind = "UnknownCommand"
+    except commands.ExtensionNotLoaded:
+        kind = "ExtensionNotLoaded"
     calls = ghost()["calls"]
     brackets = p._Parser__expected_brackets
     if kind == "UnicodeDecodeError":
         prove(ttype == "identifier" and not in_arguments, "P6.decode-error-only-for-command-names")
         return
+    if ghost().get("lookup_raised") is not None:
+        prove(kind == ghost()["lookup_raised"], "P6.lookup-error-reaches-the-funnel-unchanged")
     if not in_arguments:
         if ttype == "right_cbracket":
             prove(kind == "return" and r is True and calls == [("parser", "up")] and len(brackets) == 1
@@ -522,7 +535,7 @@ def h_command(ttype, in_arguments, nested):
                   and p._Parser__cstate is None, "P6.only-a-name-or-a-closing-brace-can-start-here")
         else:
             prove(len(calls) >= 1 and calls[0] == ("lookup", tvalue.decode("ascii"), cur), "P6.command-name-is-looked-up-under-the-current-command")
-            if kind == "UnknownCommand":
+            if kind == "UnknownCommand" or kind == "ExtensionNotLoaded":
                 prove(len(calls) == 1 and p._Parser__curcommand is cur and p._Parser__cstate is None, "P6.unknown-name-changes-nothing")
                 return
             new = p._Parser__curcommand
